@@ -187,6 +187,23 @@ func VH_c15_option_arbitrary_input() {
 	zz.Assert(np.UnmarshalJSON(in) != nil, "nil receiver returns an error instead of panicking")
 }
 
+type pairT struct{ A, B int }
+
+// a target that already holds Some(composite value): a failing decode leaves it as it was (the value is decoded
+// aside and only stored on success). The document is one that real encoding/json rejects after it has decoded the
+// first member.
+func VH_c15_option_composite_target_unchanged_on_error() {
+	y := fp.Some(pairT{zz.Int("a"), zz.Int("b")})
+	before := y.Get()
+	in := []byte("{\"A\":9,\"B\":\"not a number\"}")
+	if zz.Bool("arbitrary") {
+		in = []byte(zz.Str("in", 3))
+	}
+	if y.UnmarshalJSON(in) != nil {
+		zz.Assert(y.IsDefined() && y.Get() == before, "Option[struct].UnmarshalJSON leaves a Some(...) target unchanged when it returns an error")
+	}
+}
+
 func VH_c15_unit() {
 	u := fp.Unit{}
 	b, err := u.MarshalJSON()
